@@ -260,6 +260,12 @@ def judge(ctx, case):
     area0 = rg.curve_area(curve)
     try:
         with call_limit(120):
+            if ratlines:
+                # history: the same split was done a moment ago on a float
+                # rendering of the curve with float parameters; nothing of it
+                # may leak into the exact computation that follows
+                twin = lib.jordan_from_curve(rg.curve_map(curve, lambda p: (float(p[0]), float(p[1]))))
+                twin.split([i for i, _ in splits], [float(t) for _, t in splits])
             jordan = lib.jordan_from_curve(curve)
             original = lib.jordan_from_curve(curve)
             base = lib.read_jordan(jordan)
